@@ -183,4 +183,94 @@ theorem findVars_append_subset (w : Char → Bool) (p u : Str) :
   | nil => intro n hn; exact hn
   | cons c p' ih => intro n hn; exact findVars_cons_subset w c (p' ++ u) n (ih n hn)
 
+/-! ### the tag's message text -/
+
+theorem findVarsTag_cons_ne (w : Char → Bool) {c : Char} (hc : c ≠ '%') (x : Str) :
+    findVarsTag w (c :: x) = findVarsTag w x := by
+  cases x with
+  | nil => simp [findVarsTag]
+  | cons d rest => simp [findVarsTag, hc]
+
+theorem findVarsTag_prefix (w : Char → Bool) {p : Str} (hp : ∀ c ∈ p, c ≠ '%') (t : Str) :
+    findVarsTag w (p ++ t) = findVarsTag w t := by
+  induction p with
+  | nil => rfl
+  | cons c p' ih =>
+    rw [List.cons_append, findVarsTag_cons_ne w (hp c (by simp)), ih (fun x hx => hp x (by simp [hx]))]
+
+theorem findVarsTag_doublePercent (w : Char → Bool) (s t : Str) :
+    findVarsTag w (doublePercent s ++ t) = findVarsTag w t := by
+  induction s with
+  | nil => rfl
+  | cons c s' ih =>
+    by_cases hc : c = '%'
+    · subst hc
+      simp only [doublePercent, if_true, List.cons_append, findVarsTag, ih]
+    · simp only [doublePercent, hc, if_false, List.cons_append]
+      rw [findVarsTag_cons_ne w hc, ih]
+
+theorem findVarsTag_placeholder (w : Char → Bool) (hw : WordClass w) {n : Str} (hn : n ≠ [])
+    (hall : ∀ c ∈ n, w c = true) (t : Str) :
+    findVarsTag w ('%' :: '(' :: (n ++ ')' :: 's' :: t)) = n :: findVarsTag w t := by
+  have hne : ¬ (('(' : Char) = '%') := by decide
+  have hns := word_no_special hw hall
+  have hpre : ∀ c ∈ ('(' :: (n ++ [')', 's'])), c ≠ '%' := by
+    intro c hc
+    simp only [List.mem_cons, List.mem_append, List.not_mem_nil, or_false] at hc
+    rcases hc with rfl | hc | rfl | rfl
+    · decide
+    · exact (hns c hc).1
+    · decide
+    · decide
+  have h2 : '(' :: (n ++ ')' :: 's' :: t) = ('(' :: (n ++ [')', 's'])) ++ t := by simp
+  simp only [findVarsTag, if_true, hne, if_false, placeholder?_of_shape hw hn hall]
+  rw [h2, findVarsTag_prefix w hpre]
+
+/-- the names of the `{{ var }}` pieces, in order -/
+def varNames : List Piece → List Str
+  | [] => []
+  | .content _ :: ps => varNames ps
+  | .var n :: ps => n :: varNames ps
+
+/-- every variable name of the block is a non-empty `\w+` -/
+def WordNames (w : Char → Bool) (ps : List Piece) : Prop :=
+  ∀ n ∈ varNames ps, n ≠ [] ∧ ∀ c ∈ n, w c = true
+
+theorem findVarsTag_messageText (w : Char → Bool) (hw : WordClass w) (ps : List Piece) (hn : WordNames w ps) :
+    findVarsTag w (messageText ps) = varNames ps := by
+  induction ps with
+  | nil => rfl
+  | cons p ps ih =>
+    cases p with
+    | content s =>
+      have := ih (fun n h => hn n (by simpa [varNames] using h))
+      simp only [messageText, List.flatMap_cons, pieceText, varNames] at this ⊢
+      rw [findVarsTag_doublePercent, this]
+    | var n =>
+      have hnn := hn n (by simp [varNames])
+      have := ih (fun m h => hn m (by simp [varNames, h]))
+      simp only [messageText, List.flatMap_cons, pieceText, varNames] at this ⊢
+      have h2 : '%' :: '(' :: (n ++ [')', 's']) ++ List.flatMap pieceText ps
+          = '%' :: '(' :: (n ++ ')' :: 's' :: List.flatMap pieceText ps) := by simp
+      rw [h2, findVarsTag_placeholder w hw hnn.1 hnn.2, this]
+
+theorem formatAux_doublePercent (env : Env) (used : Bool) (s t : Str) :
+    formatAux env used (doublePercent s ++ t) = (formatAux env used t).map (s ++ ·) := by
+  induction s with
+  | nil =>
+    simp only [doublePercent, List.nil_append]
+    generalize formatAux env used t = r
+    cases r <;> rfl
+  | cons c s' ih =>
+    by_cases hc : c = '%'
+    · subst hc
+      simp only [doublePercent, if_true, List.cons_append]
+      rw [formatAux_directive env used _ (directive_percent env used _), ih]
+      generalize formatAux env used t = r
+      cases r <;> rfl
+    · simp only [doublePercent, hc, if_false, List.cons_append]
+      rw [formatAux_literal env used hc, ih]
+      generalize formatAux env used t = r
+      cases r <;> rfl
+
 end LiquidVerif.Translate
